@@ -455,7 +455,7 @@ def strace_eintr(ctx, vd, binary, scratch):
 def check_C12(ctx, tier, seed):
     vd = Verdict(ctx, "C12", tier, seed, "exploration")
     b = build(ctx, "default")
-    n = 200_000 if tier == "quick" else 20_000_000
+    n = 200_000 if tier == "quick" else 6_000_000
     sim_batch(ctx, vd, "default", b, "c12", n)
     scratch = os.path.join(ctx.build_root, "default", "files")
     os.makedirs(scratch, exist_ok=True)
@@ -474,7 +474,7 @@ def check_C12(ctx, tier, seed):
 def check_C03(ctx, tier, seed):
     vd = Verdict(ctx, "C03", tier, seed, "exploration")
     b = build(ctx, "default")
-    n = 300_000 if tier == "quick" else 30_000_000
+    n = 300_000 if tier == "quick" else 10_000_000
     sim_batch(ctx, vd, "default", b, "c03", n)
     vd.extra["components_real"] = ["Generator<T>::new/update/finalize_with_options/processed_len/clone for the five variants (public API only, no hook)"]
     vd.extra["components_stub"] = ["the delivery schedule (piece sizes, instants of finalize/clone/drop) and the byte pool"]
@@ -778,7 +778,7 @@ def check_C17(ctx, tier, seed):
     # Miri: a deterministic interpreter that reports UB; under feature `unsafe` every invariant!() is an
     # unreachable_unchecked, so a false invariant is reported as "entering unreachable code"
     miri_cfgs = ["miri_sse2", "miri_unsafe_sse2"] if quick else ["miri_sse2", "miri_sse41", "miri_avx2", "miri_unsafe_sse2", "miri_unsafe_sse41", "miri_unsafe_avx2"]
-    per = 24 if quick else 400
+    per = 24 if quick else 64
     for cfg in miri_cfgs:
         for sc in (["c17api", "c17reader"] if quick else ["c17api", "c17reader", "c03", "c12"]):
             miri_batches(ctx, vd, cfg, sc, per * NCPU // 2, NCPU // 2)
@@ -799,7 +799,7 @@ def check_C17(ctx, tier, seed):
 def check_C11(ctx, tier, seed):
     vd = Verdict(ctx, "C11", tier, seed, "exploration")
     bins = build_many(ctx, ["hooked", "hooked_dbg"])
-    n = 60_000 if tier == "quick" else 3_000_000
+    n = 60_000 if tier == "quick" else 1_000_000
     sim_batch(ctx, vd, "hooked", bins["hooked"], "c11", n)
     sim_batch(ctx, vd, "hooked_dbg", bins["hooked_dbg"], "c11", n // 4)
     sim_batch(ctx, vd, "hooked", bins["hooked"], "c11small", n)
@@ -940,6 +940,46 @@ def replay_abort(ctx, doc, path, report):
     return report(code != 0, "exit %s: %s" % (code, err[-400:].replace("\n", " | ")))
 
 
+def selftest(ctx, seeds=(1, 20260926, 77), n=2000):
+    """Determinism proof: every scenario, several VERIF_SEED values, each batch executed in separate processes at
+    worker counts 1 and 16 and twice at 16; the event-log digest (order-independent sum over runs of
+    hash(index, history digest, outcome digest, verdict)), the distinct counts and all counters must be identical."""
+    plan = [("default", ["c03", "c12", "c17api", "c17reader", "c11small"]), ("hooked", ["c11", "c07cpu"]),
+            ("serde_strict", ["c16", "c16mock"]), ("alloc_default", ["c18"])]
+    bins = build_many(ctx, [k for k, _ in plan] + ["shuttle"])
+    bad = 0
+    total = 0
+    def fingerprint(rep):
+        return (rep["log_digest"], rep["distinct"], rep["distinct_nontrivial"], rep["distinct_states"], json.dumps(rep["counters"], sort_keys=True), rep["violation_count"])
+    for cfg, scens in plan:
+        for sc in scens:
+            for seed in seeds:
+                fps = []
+                for threads in (1, 16, 16):
+                    cnt = n if sc not in ("c11",) else n // 4
+                    code, rep, err = run_sim(ctx, bins[cfg], ["batch", sc, "--seed", seed, "--count", cnt, "--threads", threads])
+                    fps.append(fingerprint(rep))
+                total += 1
+                if len(set(fps)) != 1:
+                    bad += 1
+                    print("NONDETERMINISM %s/%s seed %s: %s" % (cfg, sc, seed, fps))
+    # shuttle: same seed twice
+    for seed in seeds:
+        outs = []
+        for rep_i in range(2):
+            d = os.path.join(ctx.build_root, "shuttle", "selftest-%d" % rep_i)
+            shutil.rmtree(d, ignore_errors=True)
+            os.makedirs(d)
+            code, rep, err = run_sim(ctx, bins["shuttle"], ["shuttle", "--seed", seed, "--iters", 3000, "--sched", "pct" if seed % 2 else "random", "--dir", d])
+            outs.append((rep["evaluations"], rep["distinct"], json.dumps(rep["counters"], sort_keys=True), json.dumps(rep["samples"], sort_keys=True)))
+        total += 1
+        if outs[0] != outs[1]:
+            bad += 1
+            print("NONDETERMINISM shuttle seed %s" % seed)
+    print("selftest: %d (scenario, seed) cells x 3 executions (1 and 16 workers, separate processes), %d runs each: %d nondeterministic" % (total, n, bad))
+    return 2 if bad else 0
+
+
 def main(verif, argv):
     ctx = Ctx(verif)
     if not argv:
@@ -950,6 +990,8 @@ def main(verif, argv):
         if argv[0] == "setup":
             build_many(ctx, SETUP_CONFIGS)
             return 0
+        if argv[0] == "selftest":
+            return selftest(ctx)
         if argv[0] == "clean":
             shutil.rmtree(ctx.build_root, ignore_errors=True)
             return 0
